@@ -72,5 +72,17 @@ func (v *Vue) evalInclude(ctx VueContext, node *html.Node, vars map[string]any, 
 		return nil, fmt.Errorf("error in %s (included from %s): %w", name, ctx.FormatTemplateChain(), err)
 	}
 
-	return v.evaluate(childCtx, processedDom, depth+1)
+	// A <template> root has been evaluated by evalTemplate already; evaluating its
+	// result a second time would interpret data values as template code
+	if isTemplateRoot(compDom) {
+		return processedDom, nil
+	}
+
+	return v.evaluate(childCtx, compDom, depth+1)
+}
+
+// isTemplateRoot reports whether the first node is a <template> element, the form
+// of component that evalTemplate evaluates itself.
+func isTemplateRoot(nodes []*html.Node) bool {
+	return len(nodes) > 0 && nodes[0].Type == html.ElementNode && nodes[0].Data == "template"
 }
